@@ -10,6 +10,11 @@ use crate::model_common::*;
 use crate::model_c11::*;
 use crate::model_bindgroup::*;
 use crate::model_lib::*;
+use crate::model_types::*;
+use crate::model_reach::*;
+use crate::model_structs::*;
+use crate::model_consts::*;
+use crate::model_entry::*;
 use crate::naga_front::*;
 use crate::print_model::*;
 use crate::print_model::process_model::*;
@@ -29,20 +34,25 @@ pub open spec fn struct_opts(o: WriteOptions) -> StructOpts {
 pub uninterp spec fn pre_stages(m: &naga::Module) -> bool;
 pub uninterp spec fn spec_global_stages(m: &naga::Module) -> Map<String, wgpu::ShaderStages>;
 pub uninterp spec fn spec_entry_bits(m: &naga::Module) -> u32;
-pub uninterp spec fn pre_structs(m: &naga::Module, o: StructOpts) -> bool;
-pub uninterp spec fn spec_structs(m: &naga::Module, o: StructOpts) -> Seq<Tok>;
-pub uninterp spec fn pre_consts(m: &naga::Module) -> bool;
-pub uninterp spec fn spec_consts(m: &naga::Module) -> Seq<Seq<Tok>>;
-pub uninterp spec fn pre_overrides(m: &naga::Module) -> bool;
-pub uninterp spec fn spec_overrides(m: &naga::Module) -> Seq<Tok>;
+// the struct section: the concrete contract of structs::structs (proved in unit structs), read through the five struct switches only
+pub open spec fn opts_of(so: StructOpts) -> WriteOptions {
+    WriteOptions { derive_bytemuck_vertex: so.bytemuck_vertex, derive_bytemuck_host_shareable: so.bytemuck_host, derive_encase_host_shareable: so.encase_host,
+                   derive_serde: so.serde, matrix_vector_types: so.mvt, rustfmt: false, validate: None }
+}
+pub open spec fn pre_structs(m: &naga::Module, o: StructOpts) -> bool { structs_pre(m, opts_of(o)) }
+pub open spec fn spec_structs(m: &naga::Module, o: StructOpts) -> Seq<Tok> { structs_toks(m, opts_of(o)) }
+pub open spec fn pre_consts(m: &naga::Module) -> bool { consts_wf(m) }
+pub open spec fn spec_consts(m: &naga::Module) -> Seq<Seq<Tok>> { consts_items(m) }
+pub open spec fn pre_overrides(m: &naga::Module) -> bool { overrides_supported(m) }
+pub open spec fn spec_overrides(m: &naga::Module) -> Seq<Tok> { overrides_toks(m) }
 pub uninterp spec fn pre_vertex_methods(m: &naga::Module) -> bool;
 pub uninterp spec fn spec_vertex_methods(m: &naga::Module) -> Seq<Tok>;
-pub uninterp spec fn pre_entry_consts(m: &naga::Module) -> bool;
-pub uninterp spec fn spec_entry_consts(m: &naga::Module) -> Seq<Tok>;
+pub open spec fn pre_entry_consts(m: &naga::Module) -> bool { true }
+pub open spec fn spec_entry_consts(m: &naga::Module) -> Seq<Tok> { entry_consts_toks(m.entry_points@) }
 pub uninterp spec fn pre_vertex_states(m: &naga::Module) -> bool;
 pub uninterp spec fn spec_vertex_states(m: &naga::Module) -> Seq<Tok>;
-pub uninterp spec fn pre_fragment_states(m: &naga::Module) -> bool;
-pub uninterp spec fn spec_fragment_states(m: &naga::Module) -> Seq<Tok>;
+pub open spec fn pre_fragment_states(m: &naga::Module) -> bool { entries_wf(m) }
+pub open spec fn spec_fragment_states(m: &naga::Module) -> Seq<Tok> { fragment_states_toks(m) }
 
 // ---- C16: the SOURCE item ----
 pub open spec fn source_toks(src: Seq<char>, path: Option<Seq<char>>) -> Seq<Tok> {
